@@ -55,6 +55,12 @@ var zzWeightJournals = []string{
 	// three month ends with changing prices (weights summed over several dates)
 	2: "2020-01-01 open Assets:A\n2020-01-01 open Equity:Equity\n2020-01-01 price AAA 2 CHF\n2020-01-01 price BBB 3 CHF\n2020-02-10 price AAA 2.5 CHF\n2020-03-10 price BBB 2.25 CHF\n\n" +
 		"2020-01-02 \"buy\"\nEquity:Equity Assets:A 10 AAA\nEquity:Equity Assets:A 7 BBB\n\n2020-02-15 \"buy\"\nEquity:Equity Assets:A 3 AAA\n\n2020-03-20 \"buy\"\nEquity:Equity Assets:A 1 BBB\n",
+	// two commodities with equal, non-dyadic weights (0.1, 0.2, 0.3) on three dates: their totals are
+	// mathematically equal, and equal as floats only if they are summed in the same order
+	3: "2020-01-01 open Assets:A\n2020-01-01 open Equity:Equity\n2020-01-01 price AAA 1 CHF\n2020-01-01 price BBB 1 CHF\n2020-01-01 price CCC 1 CHF\n\n" +
+		"2020-01-02 \"d1\"\nEquity:Equity Assets:A 1 AAA\nEquity:Equity Assets:A 1 BBB\nEquity:Equity Assets:A 8 CCC\n\n" +
+		"2020-01-03 \"d2\"\nEquity:Equity Assets:A 1 AAA\nEquity:Equity Assets:A 1 BBB\nAssets:A Equity:Equity 2 CCC\n\n" +
+		"2020-01-04 \"d3\"\nEquity:Equity Assets:A 1 AAA\nEquity:Equity Assets:A 1 BBB\nAssets:A Equity:Equity 2 CCC\n",
 	// all values different
 	1: "2020-01-01 open Assets:A\n2020-01-01 open Equity:Equity\n2020-01-01 price AAA 2 CHF\n2020-01-01 price BBB 3 CHF\n\n" +
 		"2020-01-02 \"buy\"\nEquity:Equity Assets:A 10 AAA\nEquity:Equity Assets:A 10 BBB\n",
@@ -81,6 +87,8 @@ func VerifWeightsDeterministic() {
 		r.valuation.Set("CHF")
 		if v.Param("journal") == 2 {
 			r.Multiperiod.ZZSet("", "2999-12-31", 0, 3, true) // --months
+		} else if v.Param("journal") == 3 {
+			r.Multiperiod.ZZSet("", "2999-12-31", 0, 1, true) // --days
 		} else {
 			r.Multiperiod.ZZSet("", "2999-12-31", 0, 0, false)
 		}
